@@ -57,6 +57,24 @@ def predict(cfg, rng, q=None):
     n += 1
     if np.max(np.abs(d1b - q.sG * Bt)) > 1e-4 * abs(q.B0 * q.etabar):
         bad('magnitude-Bmag-boozer', 'd|B|/dr at r = 0 differs between B_mag(Boozer_toroidal=True) and the field vector: %.3g' % np.max(np.abs(d1b - q.sG * Bt)))
+    # the Cartesian field-vector evaluator is the rotation of the cylindrical one at the SAME (r, theta), also off the axis and for theta != 0,
+    # and the Cartesian tensor contracted with the Cartesian displacement reproduces its first-order change
+    cph, sph = np.cos(q.phi), np.sin(q.phi)
+    for (rr, tt_) in ((0.0, th), (r, th), (0.03, 1.3)):
+        Bc = q.Bfield_cylindrical(rr, tt_); Bx = q.Bfield_cartesian(rr, tt_)
+        wantx = np.array([Bc[0] * cph - Bc[1] * sph, Bc[0] * sph + Bc[1] * cph, Bc[2]])
+        n += 1
+        if np.max(np.abs(Bx - wantx)) > 1e-12 * max(np.max(np.abs(wantx)), 1e-300):
+            bad('Bfield-cartesian', 'Bfield_cartesian(r=%g, theta=%.3g) is not the rotation of Bfield_cylindrical at the same (r, theta): %.3g' % (rr, tt_, np.max(np.abs(Bx - wantx))))
+            break
+    B1x = (q.Bfield_cartesian(r, th) - q.Bfield_cartesian(0, th)) / r
+    dcyl = X * nn_ + Y * b
+    dx = np.array([dcyl[0] * cph - dcyl[1] * sph, dcyl[0] * sph + dcyl[1] * cph, dcyl[2]])
+    Cx = q.grad_B_tensor_cartesian()
+    want3 = np.einsum('jin,in->jn', Cx, dx)
+    n += 1
+    if np.max(np.abs(B1x - want3)) > 1e-7 * max(np.max(np.abs(want3)), 1e-300):
+        bad('contraction-cart', 'grad_B_tensor_cartesian contracted with the displacement differs from the first-order change of Bfield_cartesian by %.3g' % np.max(np.abs(B1x - want3)))
     # Cartesian = rotated cylindrical; Frobenius norms; L_grad_B
     C = q.grad_B_tensor_cartesian()
     c, s = np.cos(q.phi), np.sin(q.phi); z, o = np.zeros_like(c), np.ones_like(c)
